@@ -139,6 +139,41 @@ pub fn addressable_script(p: &mut Prng) -> Script {
     }
 }
 
+/// The script of an output that is going to be blinded: mostly an address template, one time in six a legal script
+/// for which no address exists (pay-to-pubkey, bare multisig, a small custom script). Nothing in the property ties
+/// blinding to address templates.
+pub fn blindable_script(p: &mut Prng) -> Script {
+    if !p.chance(1, 6) {
+        return addressable_script(p);
+    }
+    let pk = |p: &mut Prng| p.pick(&pool().pks).serialize().to_vec();
+    let mut v = Vec::new();
+    match p.below(3) {
+        0 => {
+            // <33-byte key> OP_CHECKSIG
+            v.push(33);
+            v.extend(pk(p));
+            v.push(0xac);
+        }
+        1 => {
+            // OP_1 <key> <key> OP_2 OP_CHECKMULTISIG
+            v.push(0x51);
+            for _ in 0..2 {
+                v.push(33);
+                v.extend(pk(p));
+            }
+            v.extend([0x52, 0xae]);
+        }
+        _ => {
+            // OP_SHA256 <32 bytes> OP_EQUAL
+            v.extend([0xa8, 0x20]);
+            v.extend(p.bytes(32));
+            v.push(0x87);
+        }
+    }
+    Script::from(v)
+}
+
 fn amount(p: &mut Prng, big: bool) -> u64 {
     match p.below(if big { 5 } else { 3 }) {
         0 => 1 + p.below(10),
@@ -309,7 +344,7 @@ pub fn build(spec: &CtSpec) -> Workload {
         if marked {
             let sk = gen::secret_key(&mut p);
             let pk = PublicKey::from_secret_key(secp, &sk);
-            output.push(TxOut { asset: Asset::Explicit(asset), value: Value::Explicit(value), nonce: Nonce::Confidential(pk), script_pubkey: addressable_script(&mut p), witness: TxOutWitness::default() });
+            output.push(TxOut { asset: Asset::Explicit(asset), value: Value::Explicit(value), nonce: Nonce::Confidential(pk), script_pubkey: blindable_script(&mut p), witness: TxOutWitness::default() });
             receivers.push(Some(sk));
         } else {
             let spk = if spec.unmarked_opreturn && p.coin() { Script::new_op_return(&p.bytes(8)) } else { addressable_script(&mut p) };
@@ -1042,9 +1077,13 @@ fn manual_blind(
             .map(|k| if m.unknown_mask & (1 << (k % 32)) != 0 && Some(k) != source { SurjectionInput::Unknown(comms[k]) } else { SurjectionInput::from_txout_secrets(w.secrets[k]) })
             .collect();
         ctx.stats.add("manual.unknown_entries", dom.iter().filter(|d| matches!(d, SurjectionInput::Unknown(_))).count() as u64);
-        let api = (m.api_mask >> (2 * (k_api % 32))) & 3;
+        let mut api = (m.api_mask >> (2 * (k_api % 32))) & 3;
         k_api += 1;
         let spk = tx.output[i].script_pubkey.clone();
+        // new_not_last_confidential takes an Address by design: a script without an address form goes another way
+        if (api == 0 || api == 3) && Address::from_script(&spk, Some(pk), &AddressParams::ELEMENTS).is_none() {
+            api = 1 + (m.seed & 1);
+        }
         let res = match api {
             0 | 3 => {
                 let params = match p.below(3) {
